@@ -6,6 +6,7 @@
     confine.getsyspath <L rootcomps> <p>    OSFS.getsyspath(p) (public, normalises itself)
     confine.sub      <sub> <p>              SubFS(parent, sub).delegate_path(p)
     confine.subn     <L sub1,sub2,…> <p>    fs.opendir(sub1).opendir(sub2)… ; path reaching fs
+    confine.subnc    <invalid> <L subs> <p>  the same as coded: the parent's invalid characters refused first
     confine.mount    <L mount paths> <p>    MountFS._delegate(p)
     confine.tarnames <L member names>       ReadTarFS._directory_entries keys + visible paths
     confine.zipnames <L member names>       ReadZipFS._directory
@@ -57,6 +58,11 @@ def handle (cmd : String) (args : List String) : Option String :=
       let subs ← argList args 0
       let p ← arg args 1
       some (res str (do let ss ← subs.mapM subInit; nestedDelegate ss.reverse p))
+  | "confine.subnc" => do
+      let inv ← arg args 0
+      let subs ← argList args 1
+      let p ← arg args 2
+      some (res str (do let ss ← subs.mapM subInit; nestedDelegateChk inv ss.reverse p))
   | "confine.mount" => do
       let ms ← argList args 0
       let p ← arg args 1
